@@ -134,7 +134,7 @@ PiolaHolds(job) ==
 
 \* universes.  quick: 2x2 matrices with entries -1..2 whose first row is non-negative, 13 fields; 3x3: unit upper
 \* triangular 0/1 matrices and four others (two orientation reversing, two with det 2), 6 fields.
-\* thorough (C09_LEVEL = thorough): all 2x2 matrices with entries -1..2, all monomial pairs; all 0/1 3x3 matrices.
+\* thorough (C09_LEVEL = thorough): all 2x2 matrices with entries -1..2, all monomial pairs; all 0/1 3x3 matrices, 26 fields.
 Thorough == IOEnv.C09_LEVEL = "thorough"
 AllMats2 == {A \in [1..2 -> [1..2 -> -1..2]] : Det2M(A) # 0}
 AllMats3 == {A \in [1..3 -> [1..3 -> 0..1]] : Det3M(A) # 0}
@@ -157,7 +157,7 @@ Fields(dim) ==
                      THEN {<< <<<<1, a1>>>>, <<<<c2, a2>>>> >> : a1 \in Alphas2, a2 \in Alphas2, c2 \in {-1, 2}}
                      ELSE {<< <<<<1, a1>>>>, <<<<c2, NextAlpha2(a1)>>>> >> : a1 \in Alphas2, c2 \in {-1, 2}})
   ELSE {Mixed3} \cup (IF Thorough
-                     THEN {<< <<<<1, a1>>>>, <<<<-1, a2>>>>, <<<<2, a3>>>> >> : a1 \in Alphas3, a2 \in Alphas3, a3 \in Alphas3}
+                     THEN {<< <<<<1, Alphas3q[k]>>>>, <<<<-1, a2>>>>, <<<<2, Alphas3q[((k + 2) % 5) + 1]>>>> >> : k \in 1..5, a2 \in Alphas3}
                      ELSE {<< <<<<1, Alphas3q[k]>>>>, <<<<-1, Alphas3q[(k % 5) + 1]>>>>, <<<<2, Alphas3q[((k + 2) % 5) + 1]>>>> >> : k \in 1..5})
 Points(dim) == IF dim = 2 THEN {<<1, -2>>} ELSE {<<1, 0, -1>>}
 Starts(dim) == IF dim = 2 THEN {-1, -3} ELSE {-2}
